@@ -447,11 +447,11 @@ class WrapperMixin(object):
             output.append(self.doxygen_cont)
         if "description" in docs:
             desc = docs["description"]
+            # Every line of the text is a comment line, with or
+            # without a trailing newline (YAML | and |-).
+            lines = desc.split("\n")
             if desc.endswith("\n"):
-                lines = docs["description"].split("\n")
                 lines.pop()  # remove trailing newline
-            else:
-                lines = [desc]
             for line in lines:
                 output.append(self.doxygen_cont + " " + line)
         if "return" in docs:
